@@ -6,7 +6,7 @@ REPO = os.environ.get("IMB_REPO", "/repo")
 BUILD = os.environ.get("IMB_VERIF_BUILD", os.path.join(VERIF, ".build"))
 LIBDIR = os.path.join(BUILD, "lib")
 LIBSO_DIR = os.path.join(LIBDIR, "lib")
-COQDIR = os.path.join(VERIF, "coq")
+COQDIR = os.environ.get("IMB_COQ_DIR") or os.path.join(VERIF, "coq")   # IMB_COQ_DIR: private copy for scratch trees
 HARNESS = os.path.join(VERIF, "harness")
 # when a check is pointed at a scratch copy of the repository (IMB_REPO), its evidence and replays go
 # next to that copy's build, never into /verif/evidence (which must describe /repo itself)
